@@ -459,6 +459,7 @@ func main() {
 	r.SetRule("histories of 2..12 continuations of 1..3 streams (6 method kinds, 4 identities) over 1..3 instances sharing one key, TTL in {10 s, 1 min, 5 min, 1 h}, advances drawn from {0, 1, 3, TTL/4, TTL/2, 0.6 TTL, 0.9 TTL, TTL-3, TTL+3, 2 TTL} and nudged so no presented age lies within +-2 s of TTL; each history replayed under 5 cache/routing configurations; plus 8 stratified shapes per TTL and a TTL=1 s refuse-only shape. distinct = (shape, TTL, instances, methods, model verdict string, routing hash); trivial = none. Concurrent arm counted separately (coverage.lru_hammer, coverage.concurrent_streams)")
 	r.Require("model:accept", "model:refuse", "model:refuse-call-only", "model:refuse-cursor-only", "model:refuse-both",
 		"shape:cold-instance-at-0.9ttl-then-1.5ttl", "shape:miss-put-then-hits-until-1.4ttl", "shape:cursor-only-expired", "shape:random", "shape:ttl-1s-refuse-only",
+		"extreme:probed", "extreme:older-refused", "extreme:nonpositive-ttl", "extreme:age-beyond-duration-range", "extreme:future-token-not-judged",
 		"lru:hit", "lru:miss", "lru:evicting-put", "concurrent:turn-accepted", "concurrent:cache-miss-path-taken")
 	r.Assume("virtual time = data shifting: the TTL code compares time.Now() only with token CreatedAt and cache expiresAt; re-sealing with CreatedAt-=d and shifting expiresAt by -d is 'advance by d'")
 	r.Assume("tokens are authentic and paired as a real client holds them; a missing/foreign call token on a cache hit is outside this property (C12: 'whenever the server has to consult it')")
@@ -508,6 +509,7 @@ func main() {
 		r.Sample(v)
 	}
 
+	extremeArm(r)
 	tH := time.Now()
 	concurrentArm(r)
 	r.Set("wall_s_by_arm", map[string]float64{"histories": tH.Sub(t0).Seconds(), "concurrent_arm": time.Since(tH).Seconds()})
